@@ -246,6 +246,11 @@ class SecWalk:
                              "amount": self.dq(max(self.pos, Fraction(1)) * evq), "total": money(amt, self.cur()),
                              "tax": money(t, self.cur() if t else "GBP")})
             self.feat.add("accumulation")
+        if r.random() < 0.12:
+            # the same line once more: two accounts holding units of one fund report the same distribution; the two
+            # lines are two events (C03-r5m2 collapsed them)
+            self.txs.append(dict(self.txs[-1]))
+            self.feat.add("event_line_listed_twice")
         self.event_dates.add(self.date)
         self.capital_dates.add(self.date)
 
